@@ -1124,5 +1124,5 @@ def rules(chk: Check) -> None:
     # R03.10: the refined end of the v+ bracket (and every other root-finder result held in a local) is read afterwards -- a result written to a
     # name nobody reads leaves the search on the stale bracket and falls back to the template silently; tiny offsets of bracket ends point inward
     from .shared import solver_results_consumed, bracket_offsets_inward
-    chk.stage(solver_results_consumed, chk, "R03.10", ("hydrodynamics", "hydrodynamicsTemplateModel"), 25)
-    chk.stage(bracket_offsets_inward, chk, "R03.10", ("hydrodynamics", "hydrodynamicsTemplateModel"), 4)
+    chk.stage(solver_results_consumed, chk, "R03.10", ("hydrodynamics", "hydrodynamicsTemplateModel"), 10)
+    chk.stage(bracket_offsets_inward, chk, "R03.10", ("hydrodynamics", "hydrodynamicsTemplateModel"), 1)
